@@ -217,6 +217,8 @@ var newUClientConnection = func(
 // [UQUIC]
 type uStreamReceiveWindows struct {
 	bidiLocal, bidiRemote, uni int64
+	// datagram is the max_datagram_frame_size the spec advertises (0 if it lists none).
+	datagram uint64
 }
 
 // forStream returns the receive window (and its auto-tuning ceiling) of stream id, as
@@ -289,6 +291,7 @@ func configForSpec(conf *Config, uSpec *QUICSpec) (*Config, *uStreamReceiveWindo
 			}
 		case tls.MaxDatagramFrameSize:
 			datagrams = p > 0
+			windows.datagram = uint64(p)
 		}
 	}
 	conf.EnableDatagrams = datagrams
